@@ -23,7 +23,7 @@ fn real_unlock(s: &str, pw: &[u8]) -> Result<Result<[u8; 32], String>, String> {
 }
 
 fn differential(ctx: &Ctx) {
-    let n = ctx.tier.pick(90, 1500);
+    let n = ctx.tier.pick(90, 3000);
     par_for(n, crate::util::ncpu(), |i| {
         let mut rng = Rng::fork(ctx.seed, &format!("C15-diff-{}", i));
         let pool = password_pool(&mut rng);
